@@ -55,6 +55,9 @@ Model/MonC03.vos Model/MonC03.vok Model/MonC03.required_vos: Model/MonC03.v Mode
 Model/MonC14.vo Model/MonC14.glob Model/MonC14.v.beautified Model/MonC14.required_vo: Model/MonC14.v Model/Mon.vo
 Model/MonC14.vio: Model/MonC14.v Model/Mon.vio
 Model/MonC14.vos Model/MonC14.vok Model/MonC14.required_vos: Model/MonC14.v Model/Mon.vos
+Model/MonC10.vo Model/MonC10.glob Model/MonC10.v.beautified Model/MonC10.required_vo: Model/MonC10.v Model/Mon.vo
+Model/MonC10.vio: Model/MonC10.v Model/Mon.vio
+Model/MonC10.vos Model/MonC10.vok Model/MonC10.required_vos: Model/MonC10.v Model/Mon.vos
 Proofs/Framework.vo Proofs/Framework.glob Proofs/Framework.v.beautified Proofs/Framework.required_vo: Proofs/Framework.v Model/Mon.vo
 Proofs/Framework.vio: Proofs/Framework.v Model/Mon.vio
 Proofs/Framework.vos Proofs/Framework.vok Proofs/Framework.required_vos: Proofs/Framework.v Model/Mon.vos
@@ -103,6 +106,9 @@ Proofs/PC03.vos Proofs/PC03.vok Proofs/PC03.required_vos: Proofs/PC03.v Model/Mo
 Proofs/PC14.vo Proofs/PC14.glob Proofs/PC14.v.beautified Proofs/PC14.required_vo: Proofs/PC14.v Model/Mon.vo Proofs/Eqb.vo Proofs/StorePromises.vo
 Proofs/PC14.vio: Proofs/PC14.v Model/Mon.vio Proofs/Eqb.vio Proofs/StorePromises.vio
 Proofs/PC14.vos Proofs/PC14.vok Proofs/PC14.required_vos: Proofs/PC14.v Model/Mon.vos Proofs/Eqb.vos Proofs/StorePromises.vos
+Proofs/PC10.vo Proofs/PC10.glob Proofs/PC10.v.beautified Proofs/PC10.required_vo: Proofs/PC10.v Model/Mon.vo Model/MonC10.vo Proofs/Eqb.vo
+Proofs/PC10.vio: Proofs/PC10.v Model/Mon.vio Model/MonC10.vio Proofs/Eqb.vio
+Proofs/PC10.vos Proofs/PC10.vok Proofs/PC10.required_vos: Proofs/PC10.v Model/Mon.vos Model/MonC10.vos Proofs/Eqb.vos
 Props/C09.vo Props/C09.glob Props/C09.v.beautified Props/C09.required_vo: Props/C09.v Model/Mon.vo Model/MonC09.vo Proofs/StoreLocks.vo Proofs/Discipline.vo Proofs/SysInv.vo Proofs/PC09.vo
 Props/C09.vio: Props/C09.v Model/Mon.vio Model/MonC09.vio Proofs/StoreLocks.vio Proofs/Discipline.vio Proofs/SysInv.vio Proofs/PC09.vio
 Props/C09.vos Props/C09.vok Props/C09.required_vos: Props/C09.v Model/Mon.vos Model/MonC09.vos Proofs/StoreLocks.vos Proofs/Discipline.vos Proofs/SysInv.vos Proofs/PC09.vos
@@ -130,6 +136,9 @@ Props/C03.vos Props/C03.vok Props/C03.required_vos: Props/C03.v Model/Mon.vos Mo
 Props/C14.vo Props/C14.glob Props/C14.v.beautified Props/C14.required_vo: Props/C14.v Model/Mon.vo Model/MonC14.vo Proofs/StorePromises.vo Proofs/PC14.vo
 Props/C14.vio: Props/C14.v Model/Mon.vio Model/MonC14.vio Proofs/StorePromises.vio Proofs/PC14.vio
 Props/C14.vos Props/C14.vok Props/C14.required_vos: Props/C14.v Model/Mon.vos Model/MonC14.vos Proofs/StorePromises.vos Proofs/PC14.vos
+Props/C10.vo Props/C10.glob Props/C10.v.beautified Props/C10.required_vo: Props/C10.v Model/Mon.vo Model/MonC10.vo Proofs/PC10.vo
+Props/C10.vio: Props/C10.v Model/Mon.vio Model/MonC10.vio Proofs/PC10.vio
+Props/C10.vos Props/C10.vok Props/C10.required_vos: Props/C10.v Model/Mon.vos Model/MonC10.vos Proofs/PC10.vos
 Props/C15.vo Props/C15.glob Props/C15.v.beautified Props/C15.required_vo: Props/C15.v Gen/Status.vo Spec/Front15.vo Model/Coro.vo
 Props/C15.vio: Props/C15.v Gen/Status.vio Spec/Front15.vio Model/Coro.vio
 Props/C15.vos Props/C15.vok Props/C15.required_vos: Props/C15.v Gen/Status.vos Spec/Front15.vos Model/Coro.vos
